@@ -15,7 +15,7 @@ Section Histories.
   Lemma FieldsStr_shrink st st' : ents_shrink st st' -> FieldsStr st -> FieldsStr st'.
   Proof.
     intros Hs H r j e' He'. specialize (Hs r j). rewrite He' in Hs. destruct Hs as [e [He [A B]]].
-    destruct (H r j e He) as [C D]. split; [rewrite A; exact C | rewrite B; exact D].
+    destruct (H r j e He) as [[C D] E1]. split; [split; [rewrite A; exact C | rewrite B; exact D] | unfold ec_one; rewrite B; exact E1].
   Qed.
 
   Lemma delete_inv oc fuel st evs s x st' evs' :
@@ -84,16 +84,12 @@ Section Histories.
                     [s [f [t [y [Hr [Hk [Hne [Hp Hf]]]]]]]]]]]]].
     - exact (Hm Habs).
     - destruct (HU R f v x Hm) as [s [nl [A [_ [_ [D _]]]]]]. apply present_get_ent in D. rewrite A in D. exact (D Habs).
-    - destruct (HS R f v x Hm) as [_ B]. exact (eset_in_ent _ _ _ _ _ B Habs).
-    - destruct (wp_fk_t sch W _ _ _ _ _ Hin) as [_ Hrt]. rewrite Hrt in Hm.
-      destruct (HB s f t b nl ti x Hin Hm) as [_ [B _]]. apply present_get_ent in B. rewrite Hr in B. exact (B Habs).
-    - destruct (wp_link_root sch W _ _ _ _ Hin) as [[_ Hrs] [_ Hro]]. rewrite Hrs in Hm. rewrite Hro in Hr. subst os.
-      pose proof (HL s lf R of_ i x Hin (fun q => q) Hm) as Hx. exact (eset_in_ent _ _ _ _ _ Hx Habs).
+    - destruct (HS R f v x Hm) as [_ [_ [_ [_ B]]]]. exact (eset_in_ent _ _ _ _ _ B Habs).
+    - destruct (HB s f t b nl ti x Hin Hm) as [_ [B _]]. apply present_get_ent in B. rewrite Hr in B. exact (B Habs).
+    - destruct (HL s lf os of_ i x Hin (fun q => q) Hm) as [Hx _]. rewrite Hr in Hx. exact (eset_in_ent _ _ _ _ _ Hx Habs).
     - destruct Hk as [[b [nl Hin]]|[nl Hin]].
-      + destruct (wp_fk_t sch W _ _ _ _ _ Hin) as [_ Hrt]. rewrite Hrt in Hr. subst t.
-        pose proof (HF s f R b nl y x Hin (fun q => q) Hp Hf Hne) as Hx. exact (eset_in_ent _ _ _ _ _ Hx Habs).
-      + destruct (wp_fc_t sch W _ _ _ _ Hin) as [_ Hrt]. rewrite Hrt in Hr. subst t.
-        exact (HC s f R nl y x Hin (fun q => q) Hp Hf Hne Habs).
+      + destruct (HF s f t b nl y x Hin (fun q => q) Hp Hf Hne) as [Hx _]. rewrite Hr in Hx. exact (eset_in_ent _ _ _ _ _ Hx Habs).
+      + pose proof (HC s f t nl y x Hin (fun q => q) Hp Hf Hne) as Hx. apply present_get_ent in Hx. rewrite Hr in Hx. exact (Hx Habs).
   Qed.
 
   Lemma delete_leaves_no_trace_lemma fuel txs oc fuel' evs s x st' evs' :
@@ -106,11 +102,13 @@ Section Histories.
 
   (* link collections are symmetric in every state satisfying the invariant *)
   Lemma links_symmetric_lemma st s lf os of_ x t : Inv st -> In (lf, os, of_) (links_of sch s) ->
-    (In t (eset st s x lf) <-> In x (eset st os t of_)).
+    (In t (eset st (root_of sch s) x lf) <-> In x (eset st (root_of sch os) t of_)) /\
+    (In t (eset st (root_of sch s) x lf) -> present sch st s x = true /\ present sch st os t = true).
   Proof.
-    intros [[_ [_ [_ [_ [_ HL]]]]] _] Hin. split; intros H.
-    - exact (HL s lf os of_ x t Hin (fun q => q) H).
-    - exact (HL os of_ s lf t x (wp_link_sym sch W _ _ _ _ Hin) (fun q => q) H).
+    intros [[_ [_ [_ [_ [_ HL]]]]] _] Hin. split; [split|]; intros H.
+    - exact (proj1 (HL s lf os of_ x t Hin (fun q => q) H)).
+    - exact (proj1 (HL os of_ s lf t x (wp_link_sym sch W _ _ _ _ Hin) (fun q => q) H)).
+    - exact (proj2 (HL s lf os of_ x t Hin (fun q => q) H)).
   Qed.
 
   (* re-creating an id that is not mentioned: the existence checks pass, and afterwards the invariant holds
@@ -176,7 +174,7 @@ Section Final.
     NoTraceWrite.Inv sch st' /\ ~ mentions sch st' (root_of sch s) x.
   Proof.
     intros HI H. destruct (delete_inv sch W oc fuel st evs s x st' evs' HI H) as [A B]. split; [exact A|].
-    apply (absent_not_mentioned sch W); [exact A | apply (wp_roots sch W) | exact B].
+    apply (absent_not_mentioned sch); [exact A | apply (wp_roots sch W) | exact B].
   Qed.
 
   Lemma run_ops_last_delete fuel oc s x : forall pre stev rs st' evs',
@@ -205,10 +203,12 @@ Section Final.
 
   Lemma final_absent fuel txs R x : root_of sch R = R ->
     get_ent (run_txs sch fuel st_empty txs) R x = None -> ~ mentions sch (run_txs sch fuel st_empty txs) R x.
-  Proof. intros HR. apply (absent_not_mentioned sch W); [apply reachable_inv | exact HR]. Qed.
+  Proof. intros HR. apply (absent_not_mentioned sch); [apply reachable_inv | exact HR]. Qed.
 
   Lemma final_links_symmetric fuel txs s lf os of_ x t : In (lf, os, of_) (links_of sch s) ->
-    (In t (eset (run_txs sch fuel st_empty txs) s x lf) <-> In x (eset (run_txs sch fuel st_empty txs) os t of_)).
+    (In t (eset (run_txs sch fuel st_empty txs) (root_of sch s) x lf) <-> In x (eset (run_txs sch fuel st_empty txs) (root_of sch os) t of_)) /\
+    (In t (eset (run_txs sch fuel st_empty txs) (root_of sch s) x lf) ->
+       present sch (run_txs sch fuel st_empty txs) s x = true /\ present sch (run_txs sch fuel st_empty txs) os t = true).
   Proof. apply (links_symmetric_lemma sch W). apply reachable_inv. Qed.
 
   Lemma final_recreate st s x : NoTraceWrite.Inv sch st -> ~ mentions sch st (root_of sch s) x ->
